@@ -124,8 +124,10 @@ func (c *Handler) PopulateTokenEndpointResponse(ctx context.Context, request fos
 	}
 
 	atLifespan := fosite.GetEffectiveLifespan(request.GetClient(), fosite.GrantTypeJWTBearer, fosite.AccessToken, c.Config.GetAccessTokenLifespan(ctx))
-	_, err := c.IssueAccessToken(ctx, atLifespan, request, response)
-	return err
+	if _, err := c.IssueAccessToken(ctx, atLifespan, request, response); err != nil {
+		return errorsx.WithStack(fosite.ErrServerError.WithWrap(err).WithDebug(err.Error()))
+	}
+	return nil
 }
 
 func (c *Handler) CanSkipClientAuth(ctx context.Context, requester fosite.AccessRequester) bool {
